@@ -1,6 +1,7 @@
 import PyrollModel.Gen.C14
 import PyrollProofs.RotLemmas
 import PyrollProofs.RotHist
+import PyrollProofs.RotNavLemmas
 import PyrollProofs.RotReal
 import PyrollProofs.RotGeom
 
@@ -11,7 +12,8 @@ Model: `PyrollModel/Rot.lean` (interpreters) applied to `PyrollModel/Gen/C14.lea
 `rotator/hookimpls.py`, `roll_pass/hookimpls/base_roll_pass.py`, `roll_pass/base.py`, `rotator/rotator.py`, `unit/unit.py`,
 `config.py` by `driver/translate/c14_rot.py`), and `PyrollModel/GeomRot.lean` (vertex-list geometry).  The same interpreters
 are run on `Float` against the real objects by `driver/props/c14.py`.  Only property theorems live here; helper lemmas are
-in `PyrollProofs/Rot{Lemmas,Real,Geom}.lean`.
+in `PyrollProofs/Rot{Lemmas,Hist,NavLemmas,Real,Geom}.lean`.  Section 9 is about the object graph (`PyrollModel/RotNav.lean`): the
+walk as a navigation over parent pointers and member lists (`Unit.prev`), `_SubUnitsList`, `PassSequence.flatten`.
 
 A flat pass sequence is a `List (U α)`; `go` solves it unit by unit and emits one observation per unit, `stateAt … n` is
 the state in which unit `n` is entered (`before` = kinds of the units already passed, nearest first = the `prev` chain).
@@ -478,6 +480,91 @@ theorem second_iteration_right (auto : Bool) (us : List (Slot α)) (st : St α) 
   solveH_second_iteration tables_as_read init_solve_as_read Gen.C14.cache auto us st h hn n store
 
 end discrete2
+
+/-! ## 9. the object graph: `prev`, parents, disk elements, `flatten` -/
+
+/-- `Unit.prev`: `ValueError` without parent, `IndexError` for the first member, else `parent.subunits[i - 1]` -/
+theorem prev_as_read : Gen.C14.prevSpec = expectedPrev := by decide
+
+/-- `_SubUnitsList(owner, units)` stores the units and THEN makes the owner their parent; `.clear()` takes the parent away from
+every member BEFORE the list is emptied -/
+theorem list_ops_as_read : Gen.C14.listOps = expectedListOps := by decide
+
+/-- `PassSequence.flatten`: a member that is a sequence is emptied and detached inside the loop; the new list is installed LAST -/
+theorem flatten_as_read : Gen.C14.flattenSpec = expectedFlatten := by decide
+
+/-- **The walk reads the kinds of the members in front of the pass and nothing else.**  Unit `i` of sequence `s`, the members
+`pre` in front of it (distinct objects whose parent is `s`): `detect_already_rotated`, run on the object graph through
+`self.parent` / `self.prev` / `prev.prev`, returns what `detect` returns on the list of kinds - for EVERY graph: whatever the
+members hold as subunits of their own (disk elements of a transport or roll pass, parts of another unit), whatever follows. -/
+theorem walk_reads_members_only (auto : Bool) (h : Heap) (s i : Nat) (pre post : List Nat)
+    (hs : h.subs s = pre ++ i :: post) (hnd : (pre ++ [i]).Nodup) (hp : ∀ x ∈ pre ++ [i], h.parent x = some s)
+    (fuel : Nat) (hf : pre.length ≤ fuel) :
+    detectNav T.walk Gen.C14.prevSpec auto h i fuel = .val (detect T.walk auto true (pre.map h.kind).reverse) := by
+  rw [prev_as_read]
+  exact detectNav_members T.walk auto h s i pre post hs hnd hp fuel hf
+
+/-- **Exactly once, on the object graph.**  If the members in front of pass `i` are - nearest first - a pass-free stretch `mid`
+and then a roll pass, the walk answers "already rotated" (`False`) iff `mid` holds a rotator - whatever subunits `mid`'s
+transports carry. -/
+theorem exactly_once_on_graph (h : Heap) (s i : Nat) (pre post : List Nat) (mid rest : List Kind)
+    (hs : h.subs s = pre ++ i :: post) (hnd : (pre ++ [i]).Nodup) (hp : ∀ x ∈ pre ++ [i], h.parent x = some s)
+    (hk : (pre.map h.kind).reverse = mid ++ .pass :: rest) (hmid : ∀ k ∈ mid, k ≠ .pass) :
+    detectNav T.walk Gen.C14.prevSpec true h i pre.length = .val (some (!mid.contains .rotator)) := by
+  rw [walk_reads_members_only true h s i pre post hs hnd hp _ (Nat.le_refl _), hk, detect_in_sequence tables_as_read mid rest hmid]
+
+/-- **A flattened sequence is a sequence.**  After `s.flatten()` the members of `s` are the former members in order, each
+sub-sequence replaced by its units (`flatMembers`), every one of them has `s` as parent, and the walk of a unit `i` among them
+returns what `detect` returns on the kinds of the units in front of it - exactly as in a sequence constructed flat. -/
+theorem flattened_like_constructed (auto : Bool) (h : Heap) (s i : Nat) (pre post : List Nat)
+    (hm : (h.subs s).Nodup) (hs : flatMembers h s = pre ++ i :: post) (hnd : (pre ++ [i]).Nodup) :
+    let h' := flatten Gen.C14.listOps Gen.C14.flattenSpec h s
+    h'.subs s = pre ++ i :: post ∧ (∀ u ∈ h'.subs s, h'.parent u = some s) ∧
+      detectNav T.walk Gen.C14.prevSpec auto h' i pre.length = .val (detect T.walk auto true (pre.map h.kind).reverse) := by
+  intro h'
+  have hsub : h'.subs s = pre ++ i :: post := by
+    show (flatten Gen.C14.listOps Gen.C14.flattenSpec h s).subs s = _
+    rw [list_ops_as_read, flatten_as_read, flatten_members h s hm, hs]
+  have hpar : ∀ u ∈ h'.subs s, h'.parent u = some s := by
+    show ∀ u ∈ (flatten Gen.C14.listOps Gen.C14.flattenSpec h s).subs s, (flatten Gen.C14.listOps Gen.C14.flattenSpec h s).parent u = some s
+    rw [list_ops_as_read, flatten_as_read]
+    exact flatten_adopts h s
+  have hkind : h'.kind = h.kind := by
+    show (flatten Gen.C14.listOps Gen.C14.flattenSpec h s).kind = _
+    rw [list_ops_as_read, flatten_as_read, flatten_kind]
+  refine ⟨hsub, hpar, ?_⟩
+  rw [walk_reads_members_only auto h' s i pre post hsub hnd (fun x hx => hpar x (by rw [hsub]; simp at hx ⊢; rcases hx with h1 | h1 <;> simp [h1])) _ (Nat.le_refl _), hkind]
+
+/-- the graph of `PassSequence([PassSequence([pass 2, rotator 3, pass 4])])` (0 = the outer, 1 = the inner sequence) -/
+def nestedGraph : Heap := Heap.ofNodes
+  [⟨0, .other, true, none, [1]⟩, ⟨1, .other, true, some 0, [2, 3, 4]⟩,
+   ⟨2, .pass, false, some 1, []⟩, ⟨3, .rotator, false, some 1, []⟩, ⟨4, .pass, false, some 1, []⟩]
+
+/-- **Why the order inside `flatten` matters** (the negation of `flattened_like_constructed` for the other statement order): if
+the dissolved sub-sequences were emptied only AFTER the new list is installed, the units moved out of them would end up without
+parent - the walk of pass 4 is then skipped (`None`), the switch value decides, and with automatic rotation on the pass turns the
+workpiece although rotator 3 stands in front of it: turned by both. -/
+theorem flatten_order_witness :
+    let h' := flatten expectedListOps [.main [.collect, .remember], .install, .deferred [.clear, .orphan]] nestedGraph 0
+    h'.subs 0 = [2, 3, 4] ∧ h'.parent 4 = none ∧
+      detectNav T.walk Gen.C14.prevSpec true h' 4 2 = .val none ∧
+      detectNav T.walk Gen.C14.prevSpec true (flatten Gen.C14.listOps Gen.C14.flattenSpec nestedGraph 0) 4 2 = .val (some false) := by
+  decide
+
+example : (flatten Gen.C14.listOps Gen.C14.flattenSpec nestedGraph 0).parent 4 = some 0 := by decide
+
+/-- a transport (5) subdivided into three disk elements (6, 7, 8) behind a rotator (3): the walk of pass 4 steps over it -/
+def diskGraph : Heap := Heap.ofNodes
+  [⟨0, .other, true, none, [2, 3, 5, 4]⟩, ⟨2, .pass, false, some 0, [9]⟩, ⟨3, .rotator, false, some 0, []⟩,
+   ⟨5, .transport, false, some 0, [6, 7, 8]⟩, ⟨4, .pass, false, some 0, []⟩,
+   ⟨6, .other, false, some 5, []⟩, ⟨7, .other, false, some 5, []⟩, ⟨8, .other, false, some 5, []⟩, ⟨9, .other, false, some 2, []⟩]
+
+example : detectNav T.walk Gen.C14.prevSpec true diskGraph 4 3 = .val (some false) := by decide
+
+/-- `exactly_once_on_graph` on that graph -/
+example : detectNav T.walk Gen.C14.prevSpec true diskGraph 4 3 = .val (some (!(([Kind.transport, Kind.rotator] : List Kind).contains .rotator))) :=
+  exactly_once_on_graph diskGraph 0 4 [2, 3, 5] [] [.transport, .rotator] [] (by decide) (by decide) (by decide) (by decide)
+    (by decide)
 
 /-! ## non-vacuity: concrete instances -/
 
